@@ -258,6 +258,15 @@ class MapObj:
                       z3.Int(f"ctr_{tag}"), cls, fields, ref=z3.Const(f"self_{tag}", Ref))
 
 
+def upper_lit(st, text: str):
+    """StringVal(text.upper()) together with the ground fact up(that) == that (CPython's own upper(), idempotent)."""
+    u = text.upper()
+    z = z3.StringVal(u)
+    if u.upper() == u:
+        st.assume(up(z) == z)
+    return z
+
+
 def map_present(m: MapObj, k):
     return m.arr[k] != OptRef.none
 
@@ -335,7 +344,11 @@ class State:
         return a
 
     def new_ref(self, cls_id: Optional[int], prefix="obj"):
-        r = fresh(prefix, Ref)
+        # deterministic name: allocation index per prefix on this path (so that an implementation run and a
+        # specification run that allocate in the same order name the same object identically)
+        n = self.ghost.get(("nalloc", prefix), 0)
+        self.ghost[("nalloc", prefix)] = n + 1
+        r = z3.Const(f"{prefix}@{n}", Ref)
         self.assume(born(r) == self.now)
         self.now = self.now + 1
         if cls_id is not None:
@@ -928,6 +941,14 @@ class Engine:
             return [(st, VBound(v, name))]
         if isinstance(v, VNone):
             return [(st, VExc("AttributeError", f"None.{name}"))]
+        if isinstance(v, VRef) and name in ("days", "seconds", "microseconds"):
+            out = []
+            for s, istd in self.split(st, self.lat.isinstance_z(v.z, ["timedelta"])):
+                if istd:
+                    out += self.getattr(VTd(td_us(v.z)), name, s)
+                else:
+                    out += self.ref_attr(v, name, s)
+            return out
         if isinstance(v, VRef):
             if f"ref.{name}" in self.contracts:
                 return [(st, VBound(v, name))]
